@@ -52,6 +52,161 @@ def py_codec(comp_id):
     return None
 
 
+# ---------------------------------------------------------------------- hostile compressed blocks
+def _vli(n):
+    out = bytearray()
+    while n >= 0x80:
+        out.append((n & 0x7F) | 0x80)
+        n >>= 7
+    out.append(n)
+    return bytes(out)
+
+
+def _unvli(b, p):
+    n = sh = 0
+    while True:
+        c = b[p]
+        p += 1
+        n |= (c & 0x7F) << sh
+        sh += 7
+        if not c & 0x80:
+            return n, p
+        if sh > 63:
+            raise ValueError("vli")
+
+
+def _xz_parts(blob):
+    """(header size, flags, compressed-size vli or None, filter bytes, index records, index start) of a one-block .xz stream"""
+    if blob[:6] != b"\xfd7zXZ\x00" or blob[-2:] != b"YZ":
+        raise ValueError("not xz")
+    bw = struct.unpack("<I", blob[-8:-4])[0]
+    isz = (bw + 1) * 4
+    istart = len(blob) - 12 - isz
+    if istart < 12 or blob[istart] != 0:
+        raise ValueError("index")
+    nrec, p = _unvli(blob, istart + 1)
+    recs = []
+    for _ in range(nrec):
+        a, p = _unvli(blob, p)
+        u, p = _unvli(blob, p)
+        recs.append([a, u])
+    hs = (blob[12] + 1) * 4
+    flags = blob[13]
+    p = 14
+    csz = None
+    if flags & 0x40:
+        csz, p = _unvli(blob, p)
+    if flags & 0x80:
+        _, p = _unvli(blob, p)
+    q = p
+    for _ in range((flags & 3) + 1):
+        _, q = _unvli(blob, q)
+        n, q = _unvli(blob, q)
+        q += n
+    return hs, flags, csz, bytes(blob[p:q]), recs, istart
+
+
+def _xz_tail(recs, flags2):
+    idx = b"\x00" + _vli(len(recs)) + b"".join(_vli(a) + _vli(u) for a, u in recs)
+    idx += bytes((-len(idx)) % 4)
+    idx += struct.pack("<I", zlib.crc32(idx))
+    foot = struct.pack("<I", len(idx) // 4 - 1) + flags2
+    return idx + struct.pack("<I", zlib.crc32(foot)) + foot + b"YZ"
+
+
+def xz_announce_index(blob, H):
+    """the index record of the (first) block promises H unpacked bytes; CRCs and footer made consistent"""
+    hs, flags, csz, filt, recs, istart = _xz_parts(blob)
+    if not recs:
+        raise ValueError("no block")
+    recs[0][1] = H
+    return bytes(blob[:istart]) + _xz_tail(recs, bytes(blob[-4:-2]))
+
+
+def xz_announce_block(blob, H):
+    """the block header gets (or has replaced) its optional `uncompressed size` field = H; header CRC, index and footer
+    made consistent (the unpadded size of the record follows the new header length)"""
+    hs, flags, csz, filt, recs, istart = _xz_parts(blob)
+    if not recs:
+        raise ValueError("no block")
+    body = bytes([flags | 0x80]) + (_vli(csz) if csz is not None else b"") + _vli(H) + filt
+    total = 1 + len(body) + 4
+    total += (-total) % 4
+    hdr = bytes([total // 4 - 1]) + body
+    hdr += bytes(total - 4 - len(hdr))
+    hdr += struct.pack("<I", zlib.crc32(hdr))
+    recs[0][0] += total - hs
+    return bytes(blob[:12]) + hdr + bytes(blob[12 + hs:istart]) + _xz_tail(recs, bytes(blob[-4:-2]))
+
+
+def zstd_announce(blob, H):
+    """the frame header gets an 8 byte Frame_Content_Size field = H (the other header fields are kept)"""
+    if blob[:4] != b"\x28\xb5\x2f\xfd":
+        raise ValueError("not zstd")
+    fhd = blob[4]
+    single = fhd & 0x20
+    p = 5
+    win = b""
+    if not single:
+        win = bytes(blob[p:p + 1]); p += 1
+    dl = (0, 1, 2, 4)[fhd & 3]
+    did = bytes(blob[p:p + dl]); p += dl
+    fl = fhd >> 6
+    p += (1 if single else 0) if fl == 0 else (2, 4, 8)[fl - 1]
+    return bytes(blob[:4]) + bytes([(fhd & 0x3F) | 0xC0]) + win + did + struct.pack("<Q", H & (2 ** 64 - 1)) + bytes(blob[p:])
+
+
+def lzma_announce(blob, H):
+    if len(blob) < 13:
+        raise ValueError("short")
+    return bytes(blob[:5]) + struct.pack("<Q", H & (2 ** 64 - 1)) + bytes(blob[13:])
+
+
+ANNOUNCERS = {2: [("lzma.size", lzma_announce), ("lzma.size+2^32", lambda b, H: lzma_announce(b, H + 2 ** 32))],
+              4: [("xz.index", xz_announce_index), ("xz.blockhdr", xz_announce_block)],
+              6: [("zstd.fcs", zstd_announce)]}
+
+
+def announce_variants(comp_id, blob, H):
+    """every way this writer knows to make a compressed block of format `comp_id` *announce* H unpacked bytes while its
+    payload stays what it was: list of (label, bytes).  gzip (zlib container) and lz4 (raw block) carry no announcement."""
+    out = []
+    for label, fn in ANNOUNCERS.get(comp_id, []):
+        try:
+            out.append((label, fn(bytes(blob), H)))
+        except (ValueError, IndexError, struct.error):
+            pass
+    return out
+
+
+class TamperCodec:
+    """wraps a block compressor; records every call (index, unpacked length) and makes call number `nth` hostile:
+    kind 'announce': the block announces `H` bytes (announce_variants()[variant]); kind 'bomb': the block is an honest
+    stream of its payload followed by zero bytes up to `H` bytes (it really unpacks to more than the reader's buffer)"""
+
+    def __init__(self, codec, comp_id, nth=None, kind=None, H=0, variant=0):
+        self.codec, self.comp_id, self.nth, self.kind, self.H, self.variant = codec, comp_id, nth, kind, H, variant
+        self.calls = []          # (unpacked length, compressed length or None)
+        self.done = None         # description of what was changed
+
+    def __call__(self, d):
+        i = len(self.calls)
+        c = self.codec(d)
+        if c is not None and i == self.nth:
+            if self.kind == "bomb" and self.H > len(d):
+                c2 = self.codec(bytes(d) + bytes(self.H - len(d)))
+                if c2 is not None and len(c2) < len(d):
+                    c, self.done = c2, "bomb:%d->%d" % (len(d), self.H)
+            elif self.kind == "announce":
+                v = announce_variants(self.comp_id, c, self.H)
+                if v and len(v[self.variant % len(v)][1]) < len(d):
+                    lab, c = v[self.variant % len(v)]
+                    self.done = "%s:%d->%d" % (lab, len(d), self.H)
+        self.calls.append((len(d), len(c) if c is not None and len(c) < len(d) else None))
+        return c
+
+
+
 class Forge:
     def __init__(self, block_size=4096, compress_meta=False, comp_id=1, codec=None):
         self.bs = block_size
@@ -338,7 +493,7 @@ class Forge:
 
 
 # ---------------------------------------------------------------------- ready-made images
-def sample_tree(rng, block_size=4096, compress_meta=False, compress_data=False, big=False, comp_id=1, codec=None):
+def sample_tree(rng, block_size=4096, compress_meta=False, compress_data=False, big=False, comp_id=1, codec=None, tailfile=False):
     """a valid image that uses every inode type, fragments, sparse blocks, xattrs and a directory index"""
     fg = Forge(block_size, compress_meta, comp_id, codec)
     bs = block_size
@@ -363,6 +518,11 @@ def sample_tree(rng, block_size=4096, compress_meta=False, compress_data=False, 
     sub2.index = [(0, 0, b"n000")]
     if root.typ == T_XDIR:
         root.index = [(0, 0, b"bdev")]
+    if tailfile:
+        # a file whose last block is short, compressible and not in a fragment: the reader unpacks it into a buffer of
+        # `file_size % block_size` bytes (outsize < block_size); added last so that the other inode numbers stay
+        f5 = fg.make_file(bytes(range(64)) * (bs // 64) + b"tail block " * (bs // 44), frag=None, compress=compress_data)
+        root.entries.insert(5, (b"f5", f5))
     fg.xattrs = [[(0, b"mime", b"text/plain"), (1, b"selinux", b"system_u:object_r:etc_t:s0")], [(0, b"k", b"v" * 300)]]
     return fg
 
